@@ -236,7 +236,9 @@ bool Instance::rewind() {
         return false;
     }
     if (env->done) {
+        // the last step only marked the session as done; undo that step, not the operation before it
         env->done = false;
+        return true;
     }
     return RewindScript(*env);
 }
